@@ -91,6 +91,25 @@ pub enum ValParser {
     Possible(Vec<PvSpec>),
     /// A caller-supplied TypedValueParser that rejects the listed raw values (callback fault seam).
     Reject(Vec<String>),
+    /// 64-bit ranged parsers whose bounds sit on the extremes of the type or are exclusive / empty
+    /// (see `edge_language`)
+    Edge(u8),
+}
+
+/// (unsigned target?, lowest, highest) of the language of `ValParser::Edge(k)`; lowest > highest = empty.
+pub fn edge_language(k: u8) -> (bool, i128, i128) {
+    match k % 10 {
+        0 => (true, 0, -1),                                  // u64 ..0
+        1 => (true, 0, -1),                                  // u64 0..0
+        2 => (false, 0, -1),                                 // i64 ..i64::MIN
+        3 => (false, 0, -1),                                 // i64 (Excluded(MAX), Unbounded)
+        4 => (true, 0, -1),                                  // u64 (Excluded(MAX), Unbounded)
+        5 => (true, u64::MAX as i128, u64::MAX as i128),     // u64 u64::MAX..
+        6 => (false, i64::MIN as i128, i64::MIN as i128),    // i64 ..=i64::MIN
+        7 => (true, 1, u64::MAX as i128),                    // u64 1..
+        8 => (false, i64::MIN as i128, -1),                  // i64 ..0
+        _ => (true, 0, 0),                                   // u64 ..=0
+    }
 }
 
 #[derive(Clone, Copy, Debug, Hash, PartialEq, Eq, Serialize, Deserialize, PartialOrd, Ord)]
@@ -565,6 +584,12 @@ pub fn build_arg(a: &ArgSpec) -> Arg {
     if let Some(r) = a.num_args {
         x = x.num_args(value_range(r));
     }
+    // a counter may carry a narrower u8 parser: counting past its range is a value error
+    if a.action == Action::Count {
+        if let ValParser::Int { w: IntW::U8, range: Some((lo, hi)) } = &a.parser {
+            x = x.value_parser(clap::value_parser!(u8).range(*lo..=*hi));
+        }
+    }
     if a.action.takes_values() {
         x = match &a.parser {
             ValParser::Str => x.value_parser(clap::value_parser!(String)),
@@ -590,6 +615,21 @@ pub fn build_arg(a: &ArgSpec) -> Arg {
             ValParser::Boolish => x.value_parser(clap::builder::BoolishValueParser::new()),
             ValParser::Possible(pvs) => x.value_parser(PossibleValuesParser::new(pvs.iter().map(build_pv).collect::<Vec<_>>())),
             ValParser::Reject(bad) => x.value_parser(RejectParser { bad: bad.clone() }),
+            ValParser::Edge(k) => {
+                use std::ops::Bound::{Excluded, Unbounded};
+                match k % 10 {
+                    0 => x.value_parser(clap::value_parser!(u64).range(..0)),
+                    1 => x.value_parser(clap::value_parser!(u64).range(0..0)),
+                    2 => x.value_parser(clap::value_parser!(i64).range(..i64::MIN)),
+                    3 => x.value_parser(clap::value_parser!(i64).range((Excluded(i64::MAX), Unbounded))),
+                    4 => x.value_parser(clap::value_parser!(u64).range((Excluded(u64::MAX), Unbounded))),
+                    5 => x.value_parser(clap::value_parser!(u64).range(u64::MAX..)),
+                    6 => x.value_parser(clap::value_parser!(i64).range(..=i64::MIN)),
+                    7 => x.value_parser(clap::value_parser!(u64).range(1..)),
+                    8 => x.value_parser(clap::value_parser!(i64).range(..0)),
+                    _ => x.value_parser(clap::value_parser!(u64).range(..=0)),
+                }
+            }
         };
     }
     if !a.value_names.is_empty() {
